@@ -234,13 +234,6 @@ Verdict(d, r, isz) ==
   ELSE IF Same(d.canon, r.canon) THEN "unspecified"
   ELSE "incompatible"
 
-\* the format (its open records closed) describes a beginning of the dtype
-PrefixOK(d, r) ==
-  /\ r.ok /\ ~r.big
-  /\ Len(r.canon) <= Len(d.canon)
-  /\ \A k \in 1..Len(r.canon) : LeafOK(d.canon[k], r.canon[k])
-  /\ r.size <= (IF Len(r.canon) < Len(d.canon) THEN d.canon[Len(r.canon) + 1].off ELSE d.size)
-
 ---------------------------------------------------------------------------
 (* implementation-shaped: Utility/Buffer.c *)
 Top(c) == c.st[Len(c.st)]
